@@ -314,6 +314,9 @@ def mk_field(f):
     if f.get("enums"):
         et = enum_type(f["enums"])
         return (vsc.rand_enum_t if f["rand"] else vsc.enum_t)(et)
+    if f.get("attr"):
+        # the same declaration through the attribute decorators
+        return (vsc.rand_attr if f["rand"] else vsc.attr)((vsc.int_t if f["s"] else vsc.bit_t)(f["w"]))
     if f["s"]:
         return (vsc.rand_int_t if f["rand"] else vsc.int_t)(f["w"])
     return (vsc.rand_bit_t if f["rand"] else vsc.bit_t)(f["w"])
